@@ -1,6 +1,160 @@
-//! C18 — not implemented yet.
-use crate::core::Ctx;
-use serde_json::Value;
+//! C18 — graceful shutdown waits for in-flight sessions and never loses the interrupt (DESIGN §5 C18).
+//!
+//! (a) fine-grained: stateless depth-first exploration, preemption-bounded, of all interleavings of the poll of
+//!     `howl` (P; points P0 before polling accept, P2 after reading the flag as false, P3 after publishing the waker)
+//!     with the signal handler (H; points H0..H3 around store / swap / wake), the signal (SIG, a real SIGINT) and
+//!     client connections (CONN).  One fresh child process per schedule (process-global statics).  A schedule is a
+//!     list of choice indices; the child replays the prefix and takes choice 0 afterwards; any divergence is exit 2.
+//! (b) coarse-grained: 0..3 in-flight sessions (handler blocked on a gate / idle keep-alive connection), every
+//!     permutation of {SIGINT, session k finishes}; after each event: returned == (signal seen && all finished).
 
-pub fn run(ctx: &mut Ctx) { ctx.machinery_error("C18 engine not implemented".into()); }
-pub fn replay(ctx: &mut Ctx, _case: &Value) { ctx.machinery_error("C18 engine not implemented".into()); }
+use crate::core::{permutations, Ctx};
+use serde_json::{json, Value};
+use std::process::Command;
+
+fn child_path() -> std::path::PathBuf { std::env::current_exe().unwrap().parent().unwrap().join("shutdown_child") }
+
+fn run_child(args: &[String]) -> Result<Value, String> {
+    let out = Command::new(child_path()).args(args).output().map_err(|e| format!("cannot run shutdown_child: {e}"))?;
+    let text = String::from_utf8_lossy(&out.stdout);
+    let v: Value = serde_json::from_str(text.trim()).map_err(|_| format!("child printed no JSON (status {:?}): {}", out.status, &text[..text.len().min(200)]))?;
+    if let Some(m) = v.get("machinery_error") { return Err(format!("child: {m}")) }
+    if !out.status.success() { return Err(format!("child exit status {:?}", out.status)) }
+    Ok(v)
+}
+
+fn prefix_arg(p: &[usize]) -> String { p.iter().map(|c| c.to_string()).collect::<Vec<_>>().join(",") }
+
+fn feature_of(events: &[String]) -> &'static str {
+    // did the handler's store and swap fall between P's load (P2) and P's publish (P3) of one poll?
+    let pos = |name: &str, from: usize| events.iter().skip(from).position(|e| e == name).map(|p| p + from);
+    let mut from = 0;
+    while let Some(p2) = pos("P@P2", from) {
+        let p3 = pos("P@P3", p2).unwrap_or(events.len());
+        let h1 = pos("H@H1", 0); let h2 = pos("H@H2", 0);
+        if let (Some(h1), Some(h2)) = (h1, h2) { if h1 > p2 && h2 < p3 { return "signal-between-load-and-publish" } }
+        from = p2 + 1;
+    }
+    "other"
+}
+
+struct Fine<'a> { ctx: &'a mut Ctx, max_conn: usize, bound: usize, top_level_sharded: bool }
+
+impl<'a> Fine<'a> {
+    fn judge(&mut self, prefix: &[usize], v: &Value) {
+        let events: Vec<String> = v["events"].as_array().map(|a| a.iter().map(|e| e.as_str().unwrap_or("").to_string()).collect()).unwrap_or_default();
+        let (sig, returned, quiescent) = (v["sig_raised"].as_bool().unwrap_or(false), v["returned"].as_bool().unwrap_or(false), v["quiescent"].as_bool().unwrap_or(false));
+        self.ctx.states += 1;
+        self.ctx.transitions += v["decisions"].as_u64().unwrap_or(0);
+        self.ctx.traces_validated += 1;
+        let conns = v["conns"].as_u64().unwrap_or(0);
+        let preemptions = v["trace"].as_array().map(|t| t.iter().filter(|d| d["preemption"].as_bool() == Some(true)).count()).unwrap_or(0);
+        let witness = || json!({"mode": "fine", "schedule": prefix, "max_conn": self.max_conn, "events": events, "sig_raised": sig, "returned": returned, "preemptions": preemptions});
+        if !quiescent { self.ctx.machinery_error(format!("schedule {prefix:?} did not reach quiescence")); return }
+        if sig && !returned {
+            self.ctx.violation(&format!("C18/fine/{}/conns{}/never-returns", feature_of(&events), conns), true, witness);
+        } else if !sig && returned {
+            self.ctx.violation(&format!("C18/fine/conns{}/returned-without-signal", conns), true, witness);
+        } else {
+            // collision: the signal handler ran while a poll was in progress (between two P points)
+            let overlapped = events.iter().enumerate().any(|(i, e)| e.starts_with("H@") && events[..i].iter().rev().find(|x| x.starts_with("P")).map(|x| x.starts_with("P@")).unwrap_or(false));
+            self.ctx.pass(&format!("{}:{}:conns{}", if sig { "signalled" } else { "no-signal" }, if returned { "returned" } else { "serving" }, conns), sig, sig && overlapped);
+        }
+    }
+
+    /// explore every schedule extending `prefix` whose number of preemptions stays within the bound
+    fn explore(&mut self, prefix: Vec<usize>, depth: usize) {
+        if self.ctx.out_of_time() { return }
+        let v = match run_child(&["fine".into(), prefix_arg(&prefix), self.max_conn.to_string()]) { Ok(v) => v, Err(e) => { self.ctx.machinery_error(format!("schedule {prefix:?}: {e}")); return } };
+        // the root schedule is executed by every worker (they share out its alternatives): only worker 0 counts it
+        if !(depth == 0 && self.top_level_sharded && self.ctx.shard != 0) { self.judge(&prefix, &v); }
+        let trace = v["trace"].as_array().cloned().unwrap_or_default();
+        let chosen: Vec<usize> = trace.iter().map(|d| d["chosen"].as_u64().unwrap_or(0) as usize).collect();
+        for i in prefix.len()..trace.len() {
+            let n_enabled = trace[i]["enabled"].as_array().map(|a| a.len()).unwrap_or(1);
+            let enabled0 = trace[i]["enabled"][0].as_str().unwrap_or("");
+            // preemptions so far (decisions before i) + this alternative
+            let before = trace[..i].iter().filter(|d| d["preemption"].as_bool() == Some(true)).count();
+            for alt in 1..n_enabled {
+                // does taking `alt` at decision i preempt a still-enabled running actor?  (the child's canonical order puts it first)
+                let running_first = i > 0 && {
+                    let prev_enabled = trace[i - 1]["enabled"].as_array().unwrap();
+                    let prev_choice = trace[i - 1]["chosen"].as_u64().unwrap_or(0) as usize;
+                    let prev_actor = prev_enabled[prev_choice].as_str().unwrap_or("");
+                    let prev_actor = if prev_actor == "SIG" { "H" } else { prev_actor };
+                    prev_actor == enabled0
+                };
+                let cost = before + if running_first { 1 } else { 0 };
+                if cost > self.bound { continue }
+                if depth == 0 && self.top_level_sharded && !self.ctx.mine() { continue }
+                let mut next = chosen[..i].to_vec(); next.push(alt);
+                self.explore(next, depth + 1);
+            }
+        }
+    }
+}
+
+fn coarse_case(ctx: &mut Ctx, mix: &str, events: &[String]) {
+    ctx.transitions += events.len() as u64;
+    ctx.states += 1;
+    match run_child(&["coarse".into(), mix.to_string(), events.join(",")]) {
+        Err(e) => ctx.machinery_error(format!("coarse {mix} {events:?}: {e}")),
+        Ok(v) => {
+            ctx.traces_validated += 1;
+            match v["violation"].as_str() {
+                Some(viol) => {
+                    let kind = if viol.starts_with("returned-early") { "returned-early" } else if viol.starts_with("never-returns") { "never-returns" } else { "session-lost-response" };
+                    let sig_first = events.first().map(|e| e == "S").unwrap_or(false);
+                    ctx.violation(&format!("C18/coarse/{}/{}/{kind}", if mix.is_empty() { "none" } else { mix }, if sig_first { "signal-first" } else { "signal-later" }), true,
+                        || json!({"mode": "coarse", "mix": mix, "events": events, "log": v["log"], "violation": viol}));
+                }
+                None => ctx.pass(&format!("coarse:{}sessions:{}", mix.len(), if events.first().map(|e| e == "S").unwrap_or(false) { "signal-first" } else { "signal-later" }), !mix.is_empty(), !mix.is_empty() && events.first().map(|e| e == "S").unwrap_or(false)),
+            }
+        }
+    }
+}
+
+pub fn run(ctx: &mut Ctx) {
+    let quick = ctx.quick();
+    // (a) fine-grained.  quick: no CONN with preemption bound 4, one CONN with bound 2.  thorough: bounds 8 / 4 / 3 for 0 / 1 / 2 CONN.
+    let plans: Vec<(usize, usize)> = if quick { vec![(0, 4), (1, 2)] } else { vec![(0, 8), (1, 4), (2, 3)] };
+    for (max_conn, bound) in &plans {
+        let mut f = Fine { ctx, max_conn: *max_conn, bound: *bound, top_level_sharded: true };
+        // every worker runs the root schedule (cheap) and shares out the first-level alternatives
+        f.explore(vec![], 0);
+    }
+    // (b) coarse-grained
+    let mixes: Vec<&str> = if quick { vec!["", "g", "i", "gg", "gi"] } else { vec!["", "g", "i", "gg", "gi", "ii", "ggg", "ggi", "gii", "iii"] };
+    for mix in mixes {
+        let n = mix.len();
+        let mut tokens: Vec<String> = vec!["S".into()]; for k in 0..n { tokens.push(k.to_string()) }
+        for perm in permutations(tokens.len()) {
+            if !ctx.mine() { continue }
+            if ctx.out_of_time() { break }
+            let events: Vec<String> = perm.iter().map(|&i| tokens[i].clone()).collect();
+            coarse_case(ctx, mix, &events);
+        }
+    }
+    // the root schedules were run by every worker: count them once (worker 0)
+    ctx.extra.insert("rule".into(), json!("case = one schedule, executed in a fresh child process with a real SIGINT: (a) an interleaving of P (poll of howl at hook points P0/P2/P3), H (signal handler at H0..H3), SIG and CONN, explored depth-first with a preemption bound; (b) a mix of in-flight sessions and an order of {SIGINT, session k finishes}; non-trivial = the signal is part of the schedule (a) / at least one session (b); collision = the handler ran while a poll was between two of its points (a) / the signal came before the sessions finished (b)"));
+    ctx.extra.insert("bounds".into(), json!({"fine (max_conn, preemption bound)": plans, "coarse session mixes": if quick { "0..2 sessions over {gate-blocked handler, idle keep-alive}" } else { "0..3 sessions" }, "coarse orders": "all permutations of {SIGINT, done_1..done_n}"}));
+    ctx.sample(|| json!({"mode": "fine", "schedule": [0, 0, 1], "max_conn": 0}));
+    ctx.sample(|| json!({"mode": "coarse", "mix": "gi", "events": ["0", "S", "1"]}));
+}
+
+pub fn replay(ctx: &mut Ctx, case: &Value) {
+    match case["mode"].as_str() {
+        Some("coarse") => {
+            let events: Vec<String> = case["events"].as_array().map(|a| a.iter().map(|e| e.as_str().unwrap_or("").to_string()).collect()).unwrap_or_default();
+            coarse_case(ctx, case["mix"].as_str().unwrap_or(""), &events);
+        }
+        _ => {
+            let prefix: Vec<usize> = case["schedule"].as_array().map(|a| a.iter().map(|c| c.as_u64().unwrap_or(0) as usize).collect()).unwrap_or_default();
+            let max_conn = case["max_conn"].as_u64().unwrap_or(0) as usize;
+            match run_child(&["fine".into(), prefix_arg(&prefix), max_conn.to_string()]) {
+                Ok(v) => { let mut f = Fine { ctx, max_conn, bound: 0, top_level_sharded: false }; f.judge(&prefix, &v) }
+                Err(e) => ctx.machinery_error(e),
+            }
+        }
+    }
+}
